@@ -565,6 +565,24 @@ func paramsInChildRule(r *Run, rule string) {
 // userFunctionEval: the evaluator method with a parameter of type
 // *userFunction (the type holding Parameters and Block of a function literal).
 func (w *World) userFunctionEval() *FuncInfo {
+	w.memoMu.Lock()
+	if w.memo == nil {
+		w.memo = map[string]interface{}{}
+	}
+	k := "userFunctionEval"
+	if v, ok := w.memo[k]; ok {
+		w.memoMu.Unlock()
+		return v.(*FuncInfo)
+	}
+	w.memoMu.Unlock()
+	v := w.userFunctionEvalUncached()
+	w.memoMu.Lock()
+	w.memo[k] = v
+	w.memoMu.Unlock()
+	return v
+}
+
+func (w *World) userFunctionEvalUncached() *FuncInfo {
 	for _, f := range w.compilerMethods() {
 		sig := f.Obj.Type().(*types.Signature)
 		for i := 0; i < sig.Params().Len(); i++ {
